@@ -18,6 +18,12 @@ import (
 
 // ---------------------------------------------------------------- derivation
 
+// fNum: the digits of one amount that a declared display format applies to.
+type fNum struct {
+	ip   string // integer digits as written, group marks removed
+	frac string // fraction digits as written
+}
+
 // fLine is one line of the derivation (text without the line terminator).
 type fLine struct {
 	text string
@@ -26,20 +32,74 @@ type fLine struct {
 	acctDisp  string // account as displayed, including ( ) or [ ]
 	status    bool   // has a status mark
 	hasAmount bool
+	semi      bool   // has an inline comment marker ';'
 	comment   bool   // carries a non-empty inline comment
 	quoted    bool   // an amount on the line has a quoted commodity that cannot be read back without its quotes
-	junk      string // unparsed tail (C04 c), "" if none
-	fracs     []string // fraction digits of the amounts on the line that a display format applies to
+	junk      string // injected tail that is no construct of G (C04 c), "" if none
+	lowerTail bool   // an amount whose right-hand commodity is not an upper-case code is followed by a cost or an assertion
+	tabTail   bool   // no inline comment and the trailing blanks contain a tab
+	nums      []fNum // the amounts on the line that the declared display format applies to
+}
+
+// addTrail appends trailing blanks to the line.
+func (l *fLine) addTrail(trail string) {
+	if trail == "" {
+		return
+	}
+	l.text += trail
+	if !l.posting {
+		return
+	}
+	if l.semi {
+		// the blanks belong to the comment
+		l.comment = true
+	} else if strings.Contains(trail, "\t") {
+		l.tabTail = true
+	}
 }
 
 type fDoc struct {
 	lines    []fLine
 	eol      string // "\n" or "\r\n"
 	finalEOL bool
-	// display-format generator: decimal places of the declared format (0 for a format without
-	// decimal mark), whether it applies to every commodity (D directive), its commodity
+	// declared display format (commodity / D directive or workspace): decimal mark (0: a format
+	// without decimal mark), group mark, decimal places (0 for a format without decimal mark)
 	fmtOn     bool
+	fmtDM     byte
+	fmtSep    string
 	fmtPlaces int
+}
+
+// crlf: line i is terminated by CR LF.
+func (d *fDoc) crlf(i int) bool {
+	return d.eol == "\r\n" && (i < len(d.lines)-1 || d.finalEOL)
+}
+
+func fZeros(n int) string { return strings.Repeat("0", n) }
+
+// fLossyNum: the number carries more significant decimals than the format shows.
+func fLossyNum(frac string, places int) bool {
+	return len(frac) > places && frac[places:] != fZeros(len(frac)-places)
+}
+
+// fThousandNum: the number ip.frac, shown with exactly three decimals under a format with group
+// mark sep, is written with exactly one mark ('.' or ','), three digits after it and a non-zero
+// integer part ("1.500", "-12,345", "1 234,500"). The project's parser reads such a number as an
+// integer with a thousands mark (parser.normalizeNumber, pinned by the repository's
+// Test_normalizeNumber), so the value comes back multiplied by 1000. Defined over the digits as
+// written: rounding half away from zero to three decimals carries into the integer part iff
+// the fraction starts with 999 followed by a digit >= 5.
+func fThousandNum(ip, frac, sep string) bool {
+	carry := len(frac) > 3 && frac[:3] == "999" && frac[3] >= '5'
+	if ip == fZeros(len(ip)) && !carry {
+		return false // 0.ddd is read as a decimal
+	}
+	if sep == "" || sep == " " {
+		return true // no second mark can appear
+	}
+	n := len(ip)
+	big := (n > 3 && ip[:n-3] != fZeros(n-3)) || (carry && n >= 3 && ip[n-3:] == "999")
+	return !big // from 1000 on a group mark appears besides the decimal mark
 }
 
 // fLossy: some amount that the declared display format applies to carries more significant
@@ -50,8 +110,8 @@ func (d *fDoc) fLossy() bool {
 	}
 	r := false
 	for i := range d.lines {
-		for _, f := range d.lines[i].fracs {
-			if len(f) > d.fmtPlaces && f[d.fmtPlaces:] != strings.Repeat("0", len(f)-d.fmtPlaces) {
+		for _, n := range d.lines[i].nums {
+			if fLossyNum(n.frac, d.fmtPlaces) {
 				r = true
 			}
 		}
@@ -59,36 +119,49 @@ func (d *fDoc) fLossy() bool {
 	return r
 }
 
-// fThousandLike: some amount is rendered, under a display format with exactly three decimals,
-// as a number that the project's parser reads as an integer with a thousands mark.
-func fThousandLike(j *ast.Journal) bool {
-	formats := extractCommodityFormats(j)
-	r := false
-	check := func(a *ast.Amount) {
-		f, ok := formats[a.Commodity.Symbol]
-		if !ok {
-			f, ok = formats[""]
-		}
-		if ok && f.HasDecimal && f.DecimalPlaces == 3 && c04ThousandLike(FormatNumber(a.Quantity, f)) {
-			r = true
-		}
+// fThousand: the declared display format has exactly three decimals and some amount it applies
+// to is rendered in the shape that the parser reads as an integer with a thousands mark.
+func (d *fDoc) fThousand() bool {
+	if !d.fmtOn || d.fmtDM == 0 || d.fmtPlaces != 3 {
+		return false
 	}
-	for i := range j.Transactions {
-		for k := range j.Transactions[i].Postings {
-			p := &j.Transactions[i].Postings[k]
-			if p.Amount != nil {
-				check(p.Amount)
-			}
-			if p.Cost != nil {
-				check(&p.Cost.Amount)
-			}
-			if p.BalanceAssertion != nil {
-				check(&p.BalanceAssertion.Amount)
+	r := false
+	for i := range d.lines {
+		for _, n := range d.lines[i].nums {
+			if fThousandNum(n.ip, n.frac, d.fmtSep) {
+				r = true
 			}
 		}
 	}
 	return r
 }
+
+// cutsPostings: a posting line that the parser rejects in part (f) is followed by another
+// posting line of the same transaction. The parser drops the rest of a transaction after a
+// syntax error, so those postings are invisible to the formatter until the error is gone.
+func (d *fDoc) cutsPostings(f func(i int) bool) bool {
+	for i := range d.lines {
+		if !d.lines[i].posting || !f(i) {
+			continue
+		}
+		for k := i + 1; k < len(d.lines); k++ {
+			t := d.lines[k].text
+			if t == "" || !fIsBlank(t[0]) {
+				break
+			}
+			if d.lines[k].posting {
+				return true
+			}
+		}
+	}
+	return false
+}
+
+func fRejTail(l *fLine) bool { return l.junk != "" || l.lowerTail }
+
+// tabTailAt: posting line i has no inline comment, its trailing blanks contain a tab, and it does
+// not end in CR LF (there the parser rejects the CR before and after formatting alike).
+func (d *fDoc) tabTailAt(i int) bool { return d.lines[i].tabTail && !d.crlf(i) }
 
 func (d *fDoc) add(l fLine) { d.lines = append(d.lines, l) }
 
@@ -135,19 +208,23 @@ const fAcctKinds = 5
 
 // fAmt is an amount of the derivation.
 type fAmt struct {
-	text   string
-	quoted bool   // quoted commodity whose symbol needs the quotes
-	frac   string // the fraction digits as written (only filled in by the display-format generator)
+	text       string
+	quoted     bool   // quoted commodity whose symbol needs the quotes (contains a blank)
+	quotedWord bool   // quoted commodity that is one word of letters and digits, on the right
+	lowerRight bool   // right-hand commodity that is not an upper-case code (lexed as free text)
+	gov        bool   // the declared display format applies to this amount
+	ip, frac   string // integer and fraction digits as written (filled in by the display-format generator)
 }
 
 // fNumber: number notations of DESIGN §4.3 with symbolic digits.
 func fNumber(name string, kind int) string {
-	n, _ := fNumberF(name, kind, false)
+	n, _, _ := fNumberF(name, kind, false)
 	return n
 }
 
-// fNumberF also returns the fraction digits; nz: the leading digit is 1..9.
-func fNumberF(name string, kind int, nz bool) (string, string) {
+// fNumberF also returns the integer digits (group marks removed) and the fraction digits;
+// nz: the leading digit is 1..9.
+func fNumberF(name string, kind int, nz bool) (text, ip, frac string) {
 	lead := true
 	D := func(s string, n int) string {
 		if lead && nz {
@@ -160,43 +237,45 @@ func fNumberF(name string, kind int, nz bool) (string, string) {
 	var f string
 	switch kind {
 	case 0: // plain
-		return D("i", 2), ""
+		i := D("i", 2)
+		return i, i, ""
 	case 1: // point
 		i := D("i", 2)
 		f = D("f", 2)
-		return i + "." + f, f
+		return i + "." + f, i, f
 	case 2: // comma
 		i := D("i", 1)
 		f = D("f", 2)
-		return i + "," + f, f
+		return i + "," + f, i, f
 	case 3: // us
 		g, h := D("g", 1), D("h", 3)
 		f = D("f", 2)
-		return g + "," + h + "." + f, f
+		return g + "," + h + "." + f, g + h, f
 	case 4: // eu
 		g, h := D("g", 2), D("h", 3)
 		f = D("f", 1)
-		return g + "." + h + "," + f, f
+		return g + "." + h + "," + f, g + h, f
 	case 5: // space groups, decimal comma
 		g, h := D("g", 1), D("h", 3)
 		f = D("f", 2)
-		return g + " " + h + "," + f, f
+		return g + " " + h + "," + f, g + h, f
 	case 6: // multi
 		g, h, k := D("g", 1), D("h", 3), D("k", 3)
-		return g + "," + h + "," + k, ""
+		return g + "," + h + "," + k, g + h + k, ""
 	case 7: // trailing mark
-		return D("i", 1) + ".", ""
+		i := D("i", 1)
+		return i + ".", i, ""
 	case 8: // exponent
 		i := D("i", 1)
-		return i + "E" + zzverif.Digits(name+".e", 1), ""
+		return i + "E" + zzverif.Digits(name+".e", 1), "", ""
 	case 9: // long fraction
 		i := D("i", 1)
 		f = D("f", 5)
-		return i + "." + f, f
+		return i + "." + f, i, f
 	default: // space groups, decimal point
 		g, h := D("g", 2), D("h", 3)
 		f = D("f", 1)
-		return g + " " + h + "." + f, f
+		return g + " " + h + "." + f, g + h, f
 	}
 }
 
@@ -220,7 +299,7 @@ func fAmount(name string, shape int, num string) fAmt {
 	case 6:
 		return fAmt{text: "-" + num + fUpper(name+".code", 2)}
 	case 7:
-		return fAmt{text: num + " " + fLower(name+".unit", 2)}
+		return fAmt{text: num + " " + fLower(name+".unit", 2), lowerRight: true}
 	case 8:
 		return fAmt{text: fUpper(name+".code", 3) + num}
 	case 9:
@@ -232,7 +311,9 @@ func fAmount(name string, shape int, num string) fAmt {
 	case 12:
 		return fAmt{text: "\"" + fLower(name+".q1", 2) + " " + fLower(name+".q2", 1) + "\"" + num, quoted: true}
 	case 13:
-		return fAmt{text: "-" + num + " \"" + fLower(name+".q1", 1) + "1\"", quoted: true}
+		// a quoted single word: the project's parser reads it back without the quotes unless
+		// something follows it on the line
+		return fAmt{text: "-" + num + " \"" + fLower(name+".q1", 1) + "1\"", quotedWord: true}
 	default:
 		return fAmt{text: num + "₽"}
 	}
@@ -272,34 +353,38 @@ func (p *fPosting) line() fLine {
 		sb.WriteString(p.status + " ")
 	}
 	sb.WriteString(disp)
-	quoted := false
-	var fracs []string
+	quoted, lowerTail := false, false
+	var nums []fNum
+	note := func(a *fAmt, followed bool) {
+		sb.WriteString(a.text)
+		quoted = quoted || a.quoted || (a.quotedWord && followed)
+		lowerTail = lowerTail || (a.lowerRight && followed)
+		if a.gov {
+			nums = append(nums, fNum{ip: a.ip, frac: a.frac})
+		}
+	}
 	if p.amount != nil {
-		sb.WriteString(p.gap + p.amount.text)
-		quoted = quoted || p.amount.quoted
-		fracs = append(fracs, p.amount.frac)
+		sb.WriteString(p.gap)
+		note(p.amount, p.cost != nil || p.asrt != nil)
 		if p.cost != nil {
-			sb.WriteString(" " + p.costOp + " " + p.cost.text)
-			quoted = quoted || p.cost.quoted
-			fracs = append(fracs, p.cost.frac)
+			sb.WriteString(" " + p.costOp + " ")
+			note(p.cost, p.asrt != nil)
 		}
 		if p.asrt != nil {
-			sb.WriteString(" " + p.asrtOp + " " + p.asrt.text)
-			quoted = quoted || p.asrt.quoted
-			fracs = append(fracs, p.asrt.frac)
+			sb.WriteString(" " + p.asrtOp + " ")
+			note(p.asrt, false)
 		}
 	}
 	if p.junk != "" {
 		sb.WriteString(" " + p.junk)
 	}
-	hasComment := false
 	if p.comment != nil {
 		sb.WriteString(p.cws + ";" + *p.comment)
-		hasComment = *p.comment != ""
 	}
-	sb.WriteString(p.trail)
-	return fLine{text: sb.String(), posting: true, acctDisp: disp, status: p.status != "", hasAmount: p.amount != nil,
-		comment: hasComment, quoted: quoted, junk: p.junk, fracs: fracs}
+	l := fLine{text: sb.String(), posting: true, acctDisp: disp, status: p.status != "", hasAmount: p.amount != nil,
+		semi: p.comment != nil, comment: p.comment != nil && *p.comment != "", quoted: quoted, junk: p.junk, lowerTail: lowerTail, nums: nums}
+	l.addTrail(p.trail)
+	return l
 }
 
 // ---------------------------------------------------------------- display formats
@@ -340,30 +425,6 @@ func c04SymFormat(maxPlaces int) (sample string, dm byte, sep string, places int
 		places = zzverif.Choice("fmt.places", maxPlaces+1)
 	}
 	return c04FormatSample(dm, sep, places), dm, sep, places
-}
-
-// c04ThousandLike: the rendered number has exactly one mark, exactly three digits after it and
-// a non-zero integer part ("1.500", "-12,345", "1 234,500"): the project's parser reads such a
-// number as an integer with a thousands separator (parser.normalizeNumber, pinned by the
-// repository's Test_normalizeNumber), so a value with three displayed decimals comes back
-// multiplied by 1000.
-func c04ThousandLike(out string) bool {
-	marks, last := 0, -1
-	for i := 0; i < len(out); i++ {
-		if out[i] == '.' || out[i] == ',' {
-			marks++
-			last = i
-		}
-	}
-	if marks != 1 || len(out)-last-1 != 3 {
-		return false
-	}
-	for i := 0; i < last; i++ {
-		if c := out[i]; c != '0' && c != '-' && c != ' ' {
-			return true
-		}
-	}
-	return false
 }
 
 // ---------------------------------------------------------------- reference LSP client (§4.4)
@@ -492,14 +553,23 @@ func fRuneCount(s string) int {
 
 func fIsBlank(c byte) bool { return c == ' ' || c == '\t' }
 
+// fTrimBlanks removes leading and trailing spaces and tabs (layout); a CR is content.
 func fTrimBlanks(s string) string {
-	for len(s) > 0 && (fIsBlank(s[0]) || s[0] == '\r') {
+	for len(s) > 0 && fIsBlank(s[0]) {
 		s = s[1:]
 	}
-	for len(s) > 0 && (fIsBlank(s[len(s)-1]) || s[len(s)-1] == '\r') {
+	for len(s) > 0 && fIsBlank(s[len(s)-1]) {
 		s = s[:len(s)-1]
 	}
 	return s
+}
+
+// fTrimBlanksCR additionally removes trailing CRs.
+func fTrimBlanksCR(s string) string {
+	for len(s) > 0 && (fIsBlank(s[len(s)-1]) || s[len(s)-1] == '\r') {
+		s = s[:len(s)-1]
+	}
+	return fTrimBlanks(s)
 }
 
 // ---------------------------------------------------------------- meaning of a syntax tree
@@ -582,9 +652,18 @@ func fSamePosting(a, b *ast.Posting) {
 			"C04: a balance assertion changes kind")
 		fSameAmount(&a.BalanceAssertion.Amount, &b.BalanceAssertion.Amount)
 	}
-	zzverif.Assert(fTrimBlanks(a.Comment) == fTrimBlanks(b.Comment), "C04: a posting comment changes")
+	if fLenientCR && a.Comment != "" {
+		// known class c04-crlf-posting-comment-gains-cr (set by fCheckC04 for CRLF documents only)
+		zzverif.Reach("kf:c04-crlf-posting-comment-gains-cr")
+		zzverif.Assert(fTrimBlanksCR(a.Comment) == fTrimBlanksCR(b.Comment), "C04: a posting comment changes")
+	} else {
+		zzverif.Assert(fTrimBlanks(a.Comment) == fTrimBlanks(b.Comment), "C04: a posting comment changes")
+	}
 	fSameTags(a.Tags, b.Tags)
 }
+
+// fLenientCR: compare posting comments modulo trailing CRs (see fCheckC04).
+var fLenientCR bool
 
 func fSameJournal(a, b *ast.Journal) {
 	zzverif.Assert(len(a.Transactions) == len(b.Transactions), "C04: number of transactions changes")
@@ -638,6 +717,15 @@ func fSameErrors(a, b []parser.ParseError) {
 
 // ---------------------------------------------------------------- class predicates
 
+func (d *fDoc) anyPostingAt(f func(i int) bool) bool {
+	for i := range d.lines {
+		if d.lines[i].posting && f(i) {
+			return true
+		}
+	}
+	return false
+}
+
 func (d *fDoc) anyPosting(f func(l *fLine) bool) bool {
 	for i := range d.lines {
 		if d.lines[i].posting && f(&d.lines[i]) {
@@ -647,76 +735,61 @@ func (d *fDoc) anyPosting(f func(l *fLine) bool) bool {
 	return false
 }
 
-// fRejectedTail looks for a syntax error that the parser reported on a line that the formatter
-// rewrites (the line of a parsed posting) and classifies the text from the error position to
-// the end of the line: text != 0 -> the tail holds something other than blanks (the syntax
-// tree does not carry it); blank != 0 -> the tail consists of blanks only and contains a tab
-// (the lexer skips spaces but not tabs after an account or amount).
-func fRejectedTail(src string, j *ast.Journal, errs []parser.ParseError) (text, blank bool) {
-	for _, e := range errs {
-		for i := range j.Transactions {
-			for k := range j.Transactions[i].Postings {
-				if j.Transactions[i].Postings[k].Range.Start.Line != e.Pos.Line {
-					continue
-				}
-				end := fIndexNL(src, e.Pos.Offset)
-				if end < 0 {
-					end = len(src)
-				}
-				if e.Pos.Offset > end {
-					continue
-				}
-				tail := src[e.Pos.Offset:end]
-				if fTrimBlanks(tail) != "" {
-					text = true
-				} else if strings.Contains(tail, "\t") {
-					blank = true
-				}
-			}
-		}
-	}
-	return text, blank
-}
+// fCheckWide (a pseudo class, only for maintaining the harness): KNOWN=zz_check_wide with every
+// real class disabled keeps only the inputs on which some class predicate holds and reports
+// "harness: a class predicate ... holds but nothing is violated" if such an input satisfies the
+// whole property, i.e. if a predicate is wider than its cause (or the defect has been repaired).
+const fCheckWide = "zz_check_wide"
 
 // ---------------------------------------------------------------- C04 (document level)
 
-func fCheckC04(d *fDoc, opts Options) {
+// fCheckC04 formats the document with the formats declared in it (formats == nil) or with the
+// given workspace formats.
+func fCheckC04(d *fDoc, opts Options) { fCheckC04With(d, opts, nil) }
+
+func fCheckC04With(d *fDoc, opts Options, formats map[string]NumberFormat) {
 	src := d.text()
 	zzverif.Observe("src", src)
 	j0, e0 := parser.Parse(src)
-	edits := FormatDocumentWithOptions(j0, src, nil, opts)
+	edits := FormatDocumentWithOptions(j0, src, formats, opts)
 	out, ok := fApply(src, edits)
 	// ill-formed or overlapping edit lists are the subject of C05
 	zzverif.Assume(ok)
 	zzverif.Observe("out", out)
 
-	tailText, tailTab := fRejectedTail(src, j0, e0)
-	if d.anyPosting(func(l *fLine) bool { return l.junk != "" }) {
-		// (c): only tails that the parser rejects (a tail such as "; x" or "@ 1 EUR" is understood)
-		zzverif.Assume(tailText)
-		zzverif.Reach("C04.junk.rejected")
+	// known classes, each defined by the shape of the input (the derivation)
+	quoted := d.anyPosting(func(l *fLine) bool { return l.quoted })
+	crlfComment := d.eol == "\r\n" && d.anyPostingAt(func(i int) bool { return d.lines[i].comment && d.crlf(i) })
+	if d.anyPosting(fRejTail) {
+		zzverif.Reach("C04.tail")
+		if zzverif.Known("c04-posting-unparsed-tail-deleted") {
+			zzverif.Reach("kf:c04-posting-unparsed-tail-deleted")
+			return
+		}
 	}
-	if zzverif.Known("posting-unparsed-tail-deleted") && tailText {
-		zzverif.Reach("kf:posting-unparsed-tail-deleted")
-		return
-	}
-	if zzverif.Known("posting-trailing-tab-rejected") && tailTab {
+	if zzverif.Known("c04-posting-trailing-tab-rejected") && d.anyPostingAt(d.tabTailAt) {
 		// the parser rejects a tab among the trailing blanks of a posting line; the formatter drops
 		// the blanks, so the diagnostic (and the truncation of the transaction) disappears
-		zzverif.Reach("kf:posting-trailing-tab-rejected")
+		zzverif.Reach("kf:c04-posting-trailing-tab-rejected")
 		return
 	}
-	if zzverif.Known("quoted-commodity-loses-quotes") && d.anyPosting(func(l *fLine) bool { return l.quoted }) {
-		zzverif.Reach("kf:quoted-commodity-loses-quotes")
+	if zzverif.Known("c04-quoted-commodity-loses-quotes") && quoted {
+		zzverif.Reach("kf:c04-quoted-commodity-loses-quotes")
 		return
 	}
-	if zzverif.Known("format-rounds-to-fewer-decimals") && d.fLossy() {
-		zzverif.Reach("kf:format-rounds-to-fewer-decimals")
+	if zzverif.Known("c04-format-rounds-to-fewer-decimals") && d.fLossy() {
+		zzverif.Reach("kf:c04-format-rounds-to-fewer-decimals")
 		return
 	}
-	if zzverif.Known("format-three-decimals-read-as-thousands") && d.fmtOn && d.fmtPlaces == 3 && fThousandLike(j0) {
-		zzverif.Reach("kf:format-three-decimals-read-as-thousands")
+	if zzverif.Known("c04-format-three-decimals-read-as-thousands") && d.fThousand() {
+		zzverif.Reach("kf:c04-format-three-decimals-read-as-thousands")
 		return
+	}
+	// c04-crlf-posting-comment-gains-cr guards only the comparison of posting comments (fSamePosting)
+	fLenientCR = zzverif.Known("c04-crlf-posting-comment-gains-cr") && d.eol == "\r\n"
+	wide := zzverif.Known(fCheckWide)
+	if wide {
+		zzverif.Assume(d.anyPosting(fRejTail) || d.anyPostingAt(d.tabTailAt) || quoted || crlfComment || d.fLossy() || d.fThousand())
 	}
 
 	// (c) no text the parser failed to understand is deleted
@@ -746,6 +819,7 @@ func fCheckC04(d *fDoc, opts Options) {
 			zzverif.Assert(fIsBlank(s[k]), "C04: a line that is not a posting loses more than trailing blanks")
 		}
 	}
+	zzverif.Assert(!wide, "harness: a class predicate of C04 holds but nothing is violated")
 	zzverif.Reach("C04.doc.end")
 }
 
@@ -761,8 +835,14 @@ func fValidRange(doc string, r protocol.Range) bool {
 	return !in1 && !in2 && !past1 && !past2
 }
 
-func fCheckEdits(doc string, edits []protocol.TextEdit) {
+// fCheckEdits: every range inside the document, no two edits overlap. excused(line): the
+// range check of an edit that starts on that line is covered by an enabled known class.
+func fCheckEdits(doc string, edits []protocol.TextEdit, excused func(line int) bool) {
 	for _, e := range edits {
+		if excused(int(e.Range.Start.Line)) {
+			zzverif.Reach("kf:c05-crlf-posting-edit-counts-cr")
+			continue
+		}
 		zzverif.Assert(fValidRange(doc, e.Range), "C05: an edit range is not inside the document (or start > end)")
 	}
 	sorted := fSorted(edits)
@@ -772,37 +852,82 @@ func fCheckEdits(doc string, edits []protocol.TextEdit) {
 	}
 }
 
-func fCheckC05(d *fDoc, opts Options) {
+func fCheckC05(d *fDoc, opts Options) { fCheckC05With(d, opts, nil) }
+
+func fCheckC05With(d *fDoc, opts Options, formats map[string]NumberFormat) {
 	src := d.text()
 	zzverif.Observe("src", src)
+
+	// c05-crlf-posting-edit-counts-cr: a posting line that ends in CR LF
+	crlfKnown := zzverif.Known("c05-crlf-posting-edit-counts-cr")
+	excused := func(line int) bool {
+		return crlfKnown && line < len(d.lines) && d.lines[line].posting && d.crlf(line)
+	}
+
 	j0, _ := parser.Parse(src)
-	edits := FormatDocumentWithOptions(j0, src, nil, opts)
-	fCheckEdits(src, edits)
+	edits := FormatDocumentWithOptions(j0, src, formats, opts)
+	fCheckEdits(src, edits, excused)
 	out, ok := fApply(src, edits)
 	zzverif.Assert(ok, "C05: the edit list cannot be applied")
 	zzverif.Observe("out", out)
 
 	// idempotence
 	j1, _ := parser.Parse(out)
-	edits2 := FormatDocumentWithOptions(j1, out, nil, opts)
-	fCheckEdits(out, edits2)
+	edits2 := FormatDocumentWithOptions(j1, out, formats, opts)
+	fCheckEdits(out, edits2, excused)
 	out2, ok2 := fApply(out, edits2)
 	zzverif.Assert(ok2, "C05: the second edit list cannot be applied")
-	skipIdem := false
-	if zzverif.Known("posting-comment-gains-blank") && d.anyPosting(func(l *fLine) bool { return l.comment }) {
-		zzverif.Reach("kf:posting-comment-gains-blank")
+	zzverif.Observe("out2", out2)
+	skipIdem, skipAlign := false, false
+	commented := d.anyPosting(func(l *fLine) bool { return l.comment })
+	quoted := d.anyPosting(func(l *fLine) bool { return l.quoted })
+	cutRej := d.cutsPostings(func(i int) bool { return fRejTail(&d.lines[i]) })
+	cutTab := d.cutsPostings(d.tabTailAt)
+	cutCR := d.cutsPostings(func(i int) bool { return d.crlf(i) && !d.lines[i].semi })
+	wide := zzverif.Known(fCheckWide)
+	if wide {
+		zzverif.Assume(commented || quoted || cutRej || cutTab || (cutCR && opts.AlignAmounts) || d.fThousand() || d.anyPostingAt(d.crlf))
+	}
+	if zzverif.Known("c05-posting-comment-gains-blank") && commented {
+		zzverif.Reach("kf:c05-posting-comment-gains-blank")
 		skipIdem = true
 	}
-	if zzverif.Known("quoted-commodity-loses-quotes") && d.anyPosting(func(l *fLine) bool { return l.quoted }) {
-		zzverif.Reach("kf:quoted-commodity-loses-quotes")
+	if zzverif.Known("c05-quoted-commodity-loses-quotes") && quoted {
+		zzverif.Reach("kf:c05-quoted-commodity-loses-quotes")
 		skipIdem = true
+	}
+	if zzverif.Known("c05-format-three-decimals-read-as-thousands") && d.fThousand() {
+		zzverif.Reach("kf:c05-format-three-decimals-read-as-thousands")
+		skipIdem = true
+	}
+	if zzverif.Known("c05-posting-unparsed-tail-deleted") && cutRej {
+		// the first run removes the rejected tail and with it the syntax error; the postings after
+		// it, which the parser had dropped, are formatted only by the second run
+		zzverif.Reach("kf:c05-posting-unparsed-tail-deleted")
+		skipIdem, skipAlign = true, true
+	}
+	if zzverif.Known("c05-posting-trailing-tab-rejected") && cutTab {
+		zzverif.Reach("kf:c05-posting-trailing-tab-rejected")
+		skipIdem, skipAlign = true, true
+	}
+	if crlfKnown && d.anyPostingAt(func(i int) bool { return d.lines[i].comment && d.crlf(i) }) {
+		// the CR of the line end is part of the comment text and is written again in front of the
+		// line end that the client keeps: one more CR per run
+		zzverif.Reach("kf:c05-crlf-posting-edit-counts-cr")
+		skipIdem = true
+	}
+	if zzverif.Known("c05-crlf-later-postings-not-formatted") && cutCR && opts.AlignAmounts {
+		// the lexer turns the CR after a posting without inline comment into a token that the parser
+		// rejects; the remaining postings of the transaction are dropped and never formatted
+		zzverif.Reach("kf:c05-crlf-later-postings-not-formatted")
+		skipAlign = true
 	}
 	if !skipIdem {
 		zzverif.Assert(out2 == out, "C05: formatting the formatted text changes it")
 	}
 
 	// alignment
-	if opts.AlignAmounts {
+	if opts.AlignAmounts && !skipAlign {
 		outLines := fSplitLines(out)
 		maxW := 0
 		for i := range d.lines {
@@ -841,5 +966,6 @@ func fCheckC05(d *fDoc, opts Options) {
 			zzverif.Reach("C05.align.checked")
 		}
 	}
+	zzverif.Assert(!wide, "harness: a class predicate of C05 holds but nothing is violated")
 	zzverif.Reach("C05.doc.end")
 }
